@@ -42,11 +42,15 @@ deriving Repr
 def hdrLen (bs : Bytes) : Nat := rd16 (bs.drop 16)
 def hdrTy (bs : Bytes) : Nat := bs.getD 18 0
 
+/-- NOTIFICATION: a malformed one is not answered with a NOTIFICATION (RFC 4271 6.4; F32 repair),
+    so the per-type length rule is not applied to it. -/
+def notificationType : Nat := 3
+
 /-- The checks `reader_async` makes on a complete 19-byte header, in its order. -/
 def hdrErr (max : Nat) (bs : Bytes) : Option (Nat × Nat) :=
   if bs.take 16 ≠ marker then some (1, 1)
   else if hdrLen bs < headerLen ∨ hdrLen bs > max then some (1, 2)
-  else if ¬ lengthValid (hdrTy bs) (hdrLen bs) then some (1, 2)
+  else if ¬ lengthValid (hdrTy bs) (hdrLen bs) ∧ hdrTy bs ≠ notificationType then some (1, 2)
   else none
 
 /-- One `reader_async()` call on the bytes available so far. -/
